@@ -142,13 +142,17 @@ CLAIMS["C11"] = dict(
 CLAIMS["C12"] = dict(
    text="Coq theorems (Props/C12.v): (1) for every module, input, configuration, fuel and state, every invocation that returns "
         "leaves call_invalid_rules as it found it (without_invalid methods clear it for their body and restore it on match, "
-        "failure and cut); (2) with the flag off a guarded alternative is exactly skipped; (3) under decidable conditions on "
+        "failure and cut); (2) with the flag off a guarded alternative is exactly skipped, and as a whole-program theorem "
+        "(C12_flag_off_equals_parser_without_guarded_alternatives, Proofs/ExecStrip.v): from any state whose flag is off the "
+        "generated module and the module with every guarded alternative deleted compute the same outcome, position, tokens "
+        "fetched, cache and invocation trace, for every method, input, configuration and fuel; (3) under decidable conditions on "
         "the InvalidNodeVisitor table extracted from the source each run (re-proved as instance lemmas), the guard is emitted "
         "exactly for alternatives mentioning an invalid* name at ANY nesting depth. Tie: K-gen/K-run. On the implementation: "
         "parser(G) with the flag off equals parser(G minus those alternatives) on enumerated inputs for 14 placements, no "
         "invalid_ rule is invoked with the flag off, and the flag is monitored at every call in both modes.",
-   design="6/C12", technique="Coq proofs (flag preservation by induction on fuel; detector exactness via table simulation) + strip-equivalence sweep",
-   note="The equivalence with the stripped grammar as a whole-program theorem is not stated; it is checked on enumerated inputs.")
+   design="6/C12", technique="Coq proofs (flag preservation and whole-program strip equivalence by induction on fuel; detector exactness via table simulation) + strip-equivalence sweep",
+   note="The whole-program theorem deletes alternatives in the generated module (IR); that generating from the grammar with the "
+        "alternatives deleted gives the same module up to helper numbering is checked on enumerated inputs, not proved.")
 CLAIMS["C15"] = dict(
    text="Coq theorems (Props/C15.v): for every token list and state, the token whose end is used for LOCATIONS is the last "
         "token before the cursor that is not NEWLINE/INDENT/DEDENT/ENDMARKER -- independent of how many tokens were fetched "
